@@ -220,7 +220,7 @@ class Built:
         return [self.listener_cls[lab]() for lab in self.m.listeners]
 
 
-def build(m: M, name="M", strict=False, extra_ns=None) -> Built:
+def build(m: M, name="M", strict=False, extra_ns=None, split=None) -> Built:
     from statemachine import State, StateMachine
     from statemachine.factory import StateMachineMetaclass
 
@@ -266,7 +266,18 @@ def build(m: M, name="M", strict=False, extra_ns=None) -> Built:
         decorate(st[s.id], "enter", s.enter)
         decorate(st[s.id], "exit", s.exit)
     tr_objs = []
-    for t in m.trans:
+    base_cls = None
+    for ti, t in enumerate(m.trans):
+        if split is not None and ti == split:
+            # inheritance rendering: states, callbacks and the first `split` transitions live
+            # in a base class; the remaining transitions are added by the subclass body on the
+            # inherited State objects (`Base.a.to(Base.b, event=...)`)
+            bns = dict(ns)
+            for (p_, n_, f_) in m.provided:
+                if p_ == "sm":
+                    bns[n_] = _mk(n_, f_)
+            base_cls = StateMachineMetaclass(name + "Base", (StateMachine,), bns)
+            ns = {}
         ev = list(t.events) if len(t.events) != 1 else t.events[0]
         tl = st[t.src].to(
             st[t.dst], event=ev, internal=t.internal,
@@ -283,8 +294,11 @@ def build(m: M, name="M", strict=False, extra_ns=None) -> Built:
         ns[n] = _mk(n, f)
     if extra_ns:
         ns.update(extra_ns)
-    cls = StateMachineMetaclass(name, (StateMachine,), ns, strict_states=strict) \
-        if strict else StateMachineMetaclass(name, (StateMachine,), ns)
+    if base_cls is not None:
+        cls = StateMachineMetaclass(name, (base_cls,), ns)
+    else:
+        cls = StateMachineMetaclass(name, (StateMachine,), ns, strict_states=strict) \
+            if strict else StateMachineMetaclass(name, (StateMachine,), ns)
 
     model_cls = None
     if "model" in per:
